@@ -36,11 +36,40 @@ def diamonds(res, kind, traces, meta):
         res.sample({"kind": kind, "two_histories_same_content": [[json.loads(o) for o in h][:8] for h in ex]})
 
 
+def twins(kind, tier, seed):
+    """weighted / unweighted twins built by the same calls (weights 1 or absent) after the hypergraph-level
+    metadata was replaced on both: they differ in weightedness only"""
+    import random
+    from harness import containers as C
+    from harness.binding import UNSUPPORTED
+    rng = random.Random(seed * 977 + len(kind))
+    traces, meta = [], []
+    fams = ("ident", "str", "big")
+    for i in range(12 if tier == "quick" else 120):
+        n = rng.choice([2, 3, 4])
+        ops = [o for o in C.py_behaviour(kind, False, n, rng.randint(3, 8), rng)
+               if o["op"] not in ("set_h_md", "set_attr_h", "clear")]
+        for o in ops:
+            if "w" in o and o["op"] != "set_weight":
+                o["w"] = rng.choice([0, 1])
+            if o["op"] == "set_weight":
+                o["w"] = 1
+            for it in o.get("items", []):
+                if "w" in it:
+                    it["w"] = 0
+        ops.insert(0, {"op": "set_h_md", "md": {"a": "1"}})
+        r = C.Replayer(kind, True, n, fams[i % 3], seed=seed * 31 + i, queries=False, plan={"hash": 1.0})
+        traces.append(r.run_twins(ops))
+        meta.append({"family": fams[i % 3], "seed": seed * 31 + i, "labels": r.b.labels, "skipped": r.skipped, "ops": ops,
+                     "weighted": True, "n": n, "origin": "weighted-unweighted-twins", "kind": kind, "replay_args": {}})
+    return traces, meta
+
+
 def run(tier, seed):
     res = Result("C07", tier, seed, "model_checking")
     for kind in ["hg", "dir", "temp", "mux"]:
         run_container("C07", kind, tier, seed, res=res, finish=False, do_explore=(kind == "hg"), queries=False,
-                      plan={"hash": 1.0}, own_ops={"hash"}, scale=0.4 if tier == "quick" else 1.0, on_traces=diamonds)
+                      plan={"hash": 1.0}, own_ops={"hash"}, scale=0.4 if tier == "quick" else 1.0, on_traces=diamonds, extra_traces=twins)
     return res.finish()
 
 
